@@ -30,29 +30,29 @@ import (
 type w1Op struct {
 	K       string `json:"k"`
 	Ch      string `json:"ch,omitempty"`
-	C       int    `json:"c,omitempty"`       // target client index (admin ops)
-	Recover bool   `json:"rec,omitempty"`     // subscribe with recovery from last seen position
-	DelayUs int    `json:"delay,omitempty"`   // sleep / async handler completion delay
-	Err     bool   `json:"err,omitempty"`     // subscribe handler answers with an error
-	N       int    `json:"n,omitempty"`       // generic number (limit, count)
-	Rev     bool   `json:"rev,omitempty"`     // history reverse
-	Since   int    `json:"since,omitempty"`   // history since offset (-1 none)
-	Back    int    `json:"back,omitempty"`    // subrec: requested offset = top - Back (negative: beyond the top)
-	Ep      string `json:"ep,omitempty"`      // subrec: cur | foreign | empty
-	Reject  bool   `json:"reject,omitempty"`  // subrec: demand error 112 when not recoverable
-	Tf      bool   `json:"tf,omitempty"`      // subscribe with a client tags filter (tag c == "1")
-	Delta   bool   `json:"delta,omitempty"`   // subscribe negotiating fossil delta
+	C       int    `json:"c,omitempty"`      // target client index (admin ops)
+	Recover bool   `json:"rec,omitempty"`    // subscribe with recovery from last seen position
+	DelayUs int    `json:"delay,omitempty"`  // sleep / async handler completion delay
+	Err     bool   `json:"err,omitempty"`    // subscribe handler answers with an error
+	N       int    `json:"n,omitempty"`      // generic number (limit, count)
+	Rev     bool   `json:"rev,omitempty"`    // history reverse
+	Since   int    `json:"since,omitempty"`  // history since offset (-1 none)
+	Back    int    `json:"back,omitempty"`   // subrec: requested offset = top - Back (negative: beyond the top)
+	Ep      string `json:"ep,omitempty"`     // subrec: cur | foreign | empty
+	Reject  bool   `json:"reject,omitempty"` // subrec: demand error 112 when not recoverable
+	Tf      bool   `json:"tf,omitempty"`     // subscribe with a client tags filter (tag c == "1")
+	Delta   bool   `json:"delta,omitempty"`  // subscribe negotiating fossil delta
 }
 
 type w1Client struct {
-	Proto    string   `json:"proto"` // json | protobuf
-	User     string   `json:"user"`
-	ConnSubs []string `json:"conn_subs,omitempty"` // connect-time server-side subscriptions
-	NoPong   bool     `json:"no_pong,omitempty"`
-	PongDelayMs int   `json:"pong_delay_ms,omitempty"`
-	Labels   map[string]string `json:"labels,omitempty"`
-	ExpireInSec int   `json:"expire_in_s,omitempty"`
-	Ops      []w1Op   `json:"ops"`
+	Proto       string            `json:"proto"` // json | protobuf
+	User        string            `json:"user"`
+	ConnSubs    []string          `json:"conn_subs,omitempty"` // connect-time server-side subscriptions
+	NoPong      bool              `json:"no_pong,omitempty"`
+	PongDelayMs int               `json:"pong_delay_ms,omitempty"`
+	Labels      map[string]string `json:"labels,omitempty"`
+	ExpireInSec int               `json:"expire_in_s,omitempty"`
+	Ops         []w1Op            `json:"ops"`
 }
 
 type w1Cfg struct {
@@ -100,8 +100,9 @@ type w1Script struct {
 }
 
 // channel flavour letters (part of the channel name, "<flags>_<n>"):
-//   p positioned, r recoverable (stream), c cache recovery mode, e emit presence,
-//   j emit join/leave, J push join/leave, h publishes go to history
+//
+//	p positioned, r recoverable (stream), c cache recovery mode, e emit presence,
+//	j emit join/leave, J push join/leave, h publishes go to history
 func chHas(ch string, f byte) bool {
 	i := strings.IndexByte(ch, '_')
 	if i < 0 {
@@ -123,34 +124,34 @@ type w1Pub struct {
 }
 
 type w1Frame struct {
-	Seq     int64
-	At      time.Duration
-	ReplyID uint32
-	ErrCode uint32
-	Kind    string // connect subscribe unsubscribe publish presence presence_stats history ping rpc refresh sub_refresh error | push:pub push:join push:leave push:unsub push:sub push:disconnect push:message push:connect push:refresh | ping
-	Ch      string
-	Pub     *w1Pub
-	Pubs    []w1Pub // recovered publications / history
-	Info    string  // client id of join/leave
-	Code    uint32
-	Offset  uint64
-	Epoch   string
+	Seq                                               int64
+	At                                                time.Duration
+	ReplyID                                           uint32
+	ErrCode                                           uint32
+	Kind                                              string // connect subscribe unsubscribe publish presence presence_stats history ping rpc refresh sub_refresh error | push:pub push:join push:leave push:unsub push:sub push:disconnect push:message push:connect push:refresh | ping
+	Ch                                                string
+	Pub                                               *w1Pub
+	Pubs                                              []w1Pub // recovered publications / history
+	Info                                              string  // client id of join/leave
+	Code                                              uint32
+	Offset                                            uint64
+	Epoch                                             string
 	Recovered, WasRecovering, Positioned, Recoverable bool
-	Subs    map[string]*protocol.SubscribeResult
-	Raw     *protocol.Reply
+	Subs                                              map[string]*protocol.SubscribeResult
+	Raw                                               *protocol.Reply
 }
 
 type w1Cmd struct {
 	Tf, Delta bool
-	At       time.Duration
-	Seq      int64
-	RetSeq   int64
-	ID       uint32
-	Kind     string
-	Ch       string
-	Proceed  bool
-	Returned bool
-	PreAuth  bool // sent before a connect reply was seen
+	At        time.Duration
+	Seq       int64
+	RetSeq    int64
+	ID        uint32
+	Kind      string
+	Ch        string
+	Proceed   bool
+	Returned  bool
+	PreAuth   bool // sent before a connect reply was seen
 }
 
 type w1CB struct {
@@ -190,49 +191,49 @@ type w1SimClient struct {
 	closeFn ClientCloseFunc
 	cmdMu   simsync.Mutex // serialises HandleCommand like a transport read loop
 
-	nextID  uint32
-	frames  []w1Frame
-	cmds    []*w1Cmd
-	cbs     []w1CB
-	connected     bool // connect reply seen
-	connectSeq    int64
-	closedSeq     int64 // transport.Close observed
-	closeCode     uint32
-	closedAt      time.Duration
-	closeReason   string
-	refused       bool // the (simulated) transport handler saw the node shut down before NewClient
-	readerDone    bool
-	lastPos map[string]StreamPosition // last position seen per channel (for recover)
-	observer bool
-	onConnectRan bool
-	acceptedAt   time.Duration
-	stalledAtSeq int64
+	nextID            uint32
+	frames            []w1Frame
+	cmds              []*w1Cmd
+	cbs               []w1CB
+	connected         bool // connect reply seen
+	connectSeq        int64
+	closedSeq         int64 // transport.Close observed
+	closeCode         uint32
+	closedAt          time.Duration
+	closeReason       string
+	refused           bool // the (simulated) transport handler saw the node shut down before NewClient
+	readerDone        bool
+	lastPos           map[string]StreamPosition // last position seen per channel (for recover)
+	observer          bool
+	onConnectRan      bool
+	acceptedAt        time.Duration
+	stalledAtSeq      int64
 	nextTf, nextDelta bool
-	instances    []*w1Instance
+	instances         []*w1Instance
 }
 
 type w1World struct {
-	s      *simrt.Sim
-	sc     *w1Script
-	prop   string
-	node   *Node
-	reg    *prometheus.Registry
-	seq    int64
-	clients []*w1SimClient
-	byTransport map[*w1Transport]*w1SimClient
-	pubs   []*w1PubRec
-	nodeOps []*w1NodeOp
-	markerSeq int
-	pubsub *w1PubSub
+	s            *simrt.Sim
+	sc           *w1Script
+	prop         string
+	node         *Node
+	reg          *prometheus.Registry
+	seq          int64
+	clients      []*w1SimClient
+	byTransport  map[*w1Transport]*w1SimClient
+	pubs         []*w1PubRec
+	nodeOps      []*w1NodeOp
+	markerSeq    int
+	pubsub       *w1PubSub
 	shutdownDone bool
 	shutdownRet  int64
 	pendingAsync int
 	startUnix    int64
-	markerPhase  bool // settled-state marker publications pass every filter
-	endPhaseSeq  int64 // everything closed after this point was closed by the harness at the end
-	csr          bool // ConnectReply.ClientSideRefresh
+	markerPhase  bool          // settled-state marker publications pass every filter
+	endPhaseSeq  int64         // everything closed after this point was closed by the harness at the end
+	csr          bool          // ConnectReply.ClientSideRefresh
 	preRun       func(n *Node) // cluster world: install shared broker / controller before Run
-	seqSrc       *int64       // cluster world: one event counter for all nodes
+	seqSrc       *int64        // cluster world: one event counter for all nodes
 	nodeCfg      func(c *Config)
 }
 
@@ -248,23 +249,23 @@ func (w *w1World) next() int64 {
 // ---------------------------------------------------------------- transport
 
 type w1Transport struct {
-	w      *w1World
-	cl     *w1SimClient
-	proto  ProtocolType
-	closed bool
+	w          *w1World
+	cl         *w1SimClient
+	proto      ProtocolType
+	closed     bool
 	failWrites bool
 	stalled    bool
-	ping   PingPongConfig
+	ping       PingPongConfig
 }
 
-func (t *w1Transport) Name() string                   { return "sim" }
-func (t *w1Transport) AcceptProtocol() string         { return "" }
-func (t *w1Transport) Protocol() ProtocolType         { return t.proto }
+func (t *w1Transport) Name() string                     { return "sim" }
+func (t *w1Transport) AcceptProtocol() string           { return "" }
+func (t *w1Transport) Protocol() ProtocolType           { return t.proto }
 func (t *w1Transport) ProtocolVersion() ProtocolVersion { return ProtocolVersion2 }
-func (t *w1Transport) Unidirectional() bool           { return false }
-func (t *w1Transport) Emulation() bool                { return false }
-func (t *w1Transport) DisabledPushFlags() uint64      { return PushFlagDisconnect }
-func (t *w1Transport) PingPongConfig() PingPongConfig { return t.ping }
+func (t *w1Transport) Unidirectional() bool             { return false }
+func (t *w1Transport) Emulation() bool                  { return false }
+func (t *w1Transport) DisabledPushFlags() uint64        { return PushFlagDisconnect }
+func (t *w1Transport) PingPongConfig() PingPongConfig   { return t.ping }
 
 func (t *w1Transport) Write(data []byte) error { return t.WriteMany(data) }
 
@@ -700,18 +701,18 @@ func (w *w1World) setup() error {
 	cfg := w.sc.Cfg
 	w.reg = prometheus.NewRegistry()
 	nc := Config{
-		LogLevel:                         LogLevelNone,
-		ClientChannelLimit:               cfg.ChannelLimit,
-		ClientStaleCloseDelay:            time.Duration(cfg.StaleMs) * time.Millisecond,
-		ClientPresenceUpdateInterval:     time.Duration(cfg.PresenceMs) * time.Millisecond,
-		ClientChannelPositionCheckDelay:  time.Duration(cfg.PositionCheckMs) * time.Millisecond,
-		ClientQueueMaxSize:               cfg.QueueMax,
-		HistoryMaxPublicationLimit:       cfg.HistoryMax,
-		HistoryMetaTTL:                   time.Duration(cfg.MetaTTLSec) * time.Second,
-		ChannelMaxLength:                 cfg.ChannelMaxLen,
-		ClientExpiredCloseDelay:          time.Duration(cfg.ExpiredDelayMs) * time.Millisecond,
-		RecoveryMaxPublicationLimit:      cfg.RecoveryMax,
-		Metrics:                          MetricsConfig{RegistererGatherer: w.reg},
+		LogLevel:                        LogLevelNone,
+		ClientChannelLimit:              cfg.ChannelLimit,
+		ClientStaleCloseDelay:           time.Duration(cfg.StaleMs) * time.Millisecond,
+		ClientPresenceUpdateInterval:    time.Duration(cfg.PresenceMs) * time.Millisecond,
+		ClientChannelPositionCheckDelay: time.Duration(cfg.PositionCheckMs) * time.Millisecond,
+		ClientQueueMaxSize:              cfg.QueueMax,
+		HistoryMaxPublicationLimit:      cfg.HistoryMax,
+		HistoryMetaTTL:                  time.Duration(cfg.MetaTTLSec) * time.Second,
+		ChannelMaxLength:                cfg.ChannelMaxLen,
+		ClientExpiredCloseDelay:         time.Duration(cfg.ExpiredDelayMs) * time.Millisecond,
+		RecoveryMaxPublicationLimit:     cfg.RecoveryMax,
+		Metrics:                         MetricsConfig{RegistererGatherer: w.reg},
 	}
 	if cfg.PresenceConc > 1 {
 		nc.clientPresenceUpdateConcurrency = cfg.PresenceConc
@@ -914,12 +915,16 @@ func (b *w1PubSub) Unsubscribe(ch ...string) error {
 func (b *w1PubSub) Publish(ch string, data []byte, opts PublishOptions) (PublishResult, error) {
 	return b.inner.Publish(ch, data, opts)
 }
-func (b *w1PubSub) PublishJoin(ch string, info *ClientInfo) error  { return b.inner.PublishJoin(ch, info) }
-func (b *w1PubSub) PublishLeave(ch string, info *ClientInfo) error { return b.inner.PublishLeave(ch, info) }
+func (b *w1PubSub) PublishJoin(ch string, info *ClientInfo) error {
+	return b.inner.PublishJoin(ch, info)
+}
+func (b *w1PubSub) PublishLeave(ch string, info *ClientInfo) error {
+	return b.inner.PublishLeave(ch, info)
+}
 func (b *w1PubSub) History(ch string, opts HistoryOptions) ([]*Publication, StreamPosition, error) {
 	return b.inner.History(ch, opts)
 }
-func (b *w1PubSub) RemoveHistory(ch string) error { return b.inner.RemoveHistory(ch) }
+func (b *w1PubSub) RemoveHistory(ch string) error   { return b.inner.RemoveHistory(ch) }
 func (b *w1PubSub) Close(ctx context.Context) error { return b.inner.Close(ctx) }
 
 func (b *w1PubSub) HandlePublication(ch string, pub *Publication, sp StreamPosition, delta bool, prev *Publication) error {
@@ -948,8 +953,10 @@ func (b *w1PubSub) HandlePublication(ch string, pub *Publication, sp StreamPosit
 	}
 	return err
 }
-func (b *w1PubSub) HandleJoin(ch string, info *ClientInfo) error  { return b.node.HandleJoin(ch, info) }
-func (b *w1PubSub) HandleLeave(ch string, info *ClientInfo) error { return b.node.HandleLeave(ch, info) }
+func (b *w1PubSub) HandleJoin(ch string, info *ClientInfo) error { return b.node.HandleJoin(ch, info) }
+func (b *w1PubSub) HandleLeave(ch string, info *ClientInfo) error {
+	return b.node.HandleLeave(ch, info)
+}
 
 // ---------------------------------------------------------------- actors
 
@@ -1200,7 +1207,7 @@ func w1Run(s *simrt.Sim, script any, prop string) {
 var w1Flavours = map[string][]string{
 	"C04": {"_", "p_", "ej_", "r_"},
 	"C05": {"_", "pe_", "ejJ_", "r_", "e_"},
-	"C10": {"_", "_", "p_", "jJ_", "r_"},
+	"C10": {"_", "_", "p_", "jJ_", "r_", "b_", "pb_", "jJb_"},
 	"C01": {"p_", "r_", "r_", "p_"},
 	"C06": {"e_", "e_", "pe_"},
 	"C07": {"jJ_", "jJ_", "jJe_"},
@@ -1253,6 +1260,10 @@ func w1Gen(c *simrt.Choice, prop, tier string) any {
 		cfg.DropPm = []int{0, 50, 200}[c.Intn(3)]
 		cfg.DupPm = []int{0, 50, 200}[c.Intn(3)]
 		cfg.DelayPm = []int{0, 100, 300}[c.Intn(3)]
+	}
+	if prop == "C10" || prop == "C13" {
+		cfg.Batch = true // only channels with flavour letter b are batched
+		cfg.BatchLatest = c.Intn(3) == 0
 	}
 	if prop == "C37" {
 		cfg.ChannelLimit = 1 + c.Intn(3)
@@ -1577,6 +1588,15 @@ func init() {
 		NewScript: func() any { return &w1Script{} },
 		Run:       w1Run,
 		Shrinks:   w1Shrinks,
+		// not for the properties whose oracle asserts exact simulated times (C36) or
+		// compares replies at a quiescent instant (C43, C02, C03)
+		Stall: func(prop string) bool {
+			switch prop {
+			case "C36", "C43", "C02", "C03":
+				return false
+			}
+			return true
+		},
 		Nontrivial: func(prop string, r *simrt.Result) bool {
 			return r.Probes["nontrivial:"+prop] > 0
 		},
